@@ -10,6 +10,9 @@ extern crate criterion;
 
 pub mod fs_store;
 
+#[cfg(feature = "_verif_hooks")]
+pub mod verif;
+
 mod utils;
 
 #[cfg(test)]
